@@ -28,3 +28,11 @@ package utils
 //@ secret a, b
 //@ declassify borrow == 0 : the comparison outcome is the value the function returns (final verdict)
 //@ declassify diff != 0 : the comparison outcome is the value the function returns (final verdict)
+
+// ---------------------------------------------------------------------------------------------
+// Write-effect contracts (property C17): parameters not listed under `writes` are read-only;
+// `immutable` types are never written through a method receiver. Checked by `govc eff`.
+// ---------------------------------------------------------------------------------------------
+//@ func utils.ConstantTimeCmp#eff
+//@ func utils.DecomposeNAF#eff
+//@ writes out
